@@ -170,6 +170,42 @@ def gen_nondyadic(rng, u, cap):
     return x[:n]
 
 
+def gen_near_t(rng, cfg, cap):
+    """Low-variance observations a hair around the null mean, then an extreme value (0 or u): the regime where a bet
+    sits at its cap and the null conditional mean has drifted to the other side of t."""
+    u, t = cfg["u"], cfg["t"]
+    eps = rng.choice((0.01, 0.011, 0.001, 2.0 ** -7, 0.0003))
+    k = rng.randint(1, max(1, min(cap - 1, 6)))
+    x = [min(u, max(0.0, t + rng.choice((1, 1, -1, -1.1, 0.9)) * eps)) for _ in range(k)]
+    x.append(rng.choice((0.0, 0.0, u)))
+    for _ in range(rng.randint(0, 2)):
+        x.append(rng.choice((0.0, t, u)))
+    return x[:max(1, cap)]
+
+
+def gen_mu_tiny(rng, cfg, cap):
+    """Finite N: the running total comes within 1e-9..1e-12 of N t without reaching it, so the null conditional mean is
+    tiny but strictly positive (nothing is singular there) - then more draws."""
+    u, t = cfg["u"], cfg["t"]
+    N = cfgN(cfg)
+    if not math.isfinite(N) or N < 3:
+        return None
+    target = N * t
+    x, S = [], 0.0
+    while len(x) < N - 2 and target - S > u:
+        x.append(u)
+        S += u
+    gap = rng.choice((1e-9, 1e-10, 3e-12, 1e-8))
+    last = target - S - gap
+    if not (0 <= last <= u) or len(x) >= N - 1:
+        return None
+    x.append(last)
+    for _ in range(rng.randint(1, 2)):
+        if len(x) < N:
+            x.append(0.0)
+    return x[:cap]
+
+
 def gen_sample(rng, cfg, stratum=None, n_max=12, nondyadic=0.0):
     """A non-empty sample in [0,u] no longer than the population; returns (stratum, list of floats)."""
     u, t = cfg["u"], cfg["t"]
@@ -177,6 +213,13 @@ def gen_sample(rng, cfg, stratum=None, n_max=12, nondyadic=0.0):
     finite = math.isfinite(N)
     cap = N if finite else n_max
     if nondyadic and rng.random() < nondyadic:
+        r = rng.random()
+        if r < 0.3:
+            return "near_t_then_extreme", gen_near_t(rng, cfg, cap if finite else n_max)
+        if r < 0.4:
+            y = gen_mu_tiny(rng, cfg, cap)
+            if y:
+                return "mu_tiny_positive", y
         return "nondyadic_runs", gen_nondyadic(rng, u, cap if finite else max(n_max, 40))
     st = stratum or rng.choice(SAMPLE_STRATA)
     grid = [0.0, u / 4, u / 2, 3 * u / 4, u, t]
